@@ -4,32 +4,40 @@
 (* TokenGen.tla emits its case table for replay into the real pfst).           *)
 (*                                                                            *)
 (* A layout is a module of NStmt one-line statements; above each statement    *)
-(* (and after the last one) sits one of the Patterns of comment / blank       *)
-(* lines, and each statement may carry a line comment.  The reference editor  *)
+(* (and after the last one) sits one of the Patterns of comment / blank /      *)
+(* line-continuation lines, each statement may carry a line comment, and       *)
+(* consecutive statements may share a physical line, joined by `;` (JoinOpts). *)
+(* The reference editor                                                       *)
 (* is written on *lines* from the documentation of the trivia option (it does *)
 (* not share a definition with TokenLaws, which works on token indices):      *)
 (*   delete / replace statement i : the statement line goes, with the leading *)
 (*     comment lines its leading mode selects ('none' | 'block' | 'all') and  *)
 (*     the trailing ones its trailing mode selects ('none' | 'line' |         *)
-(*     'block' | 'all'); an unselected line comment stays as a line of its    *)
-(*     own; optionally one adjacent blank line is eaten / added (pep8space,   *)
-(*     '+N' / '-N')                                                           *)
+(*     'block' | 'all' | line numbers); an unselected line comment stays; up   *)
+(*     to N blank lines next to the removed region go with it (space counts   *)
+(*     '+N' / '-N' of the option, pep8space); only the first statement of a    *)
+(*     `;`-joined line has leading trivia, only the last one trailing trivia   *)
 (*   insert at i : a new line right after the previous statement              *)
 (* Tokens and lines are hash-consed integers as in the recorded traces; the    *)
 (* facts handed to TokenLaws (CaseOf) are computed here by a small tokenizer   *)
 (* of the line model.                                                          *)
 EXTENDS Integers, Sequences, FiniteSets, TLC
 
-CONSTANTS NStmt,       \* number of statements
-          Patterns,    \* set of sequences over {"c", "b"} (comment line, blank line) above a statement
-          TailPatterns, \* the same after the last statement
+CONSTANTS NStmt,        \* number of statements
+          Patterns,     \* set of sequences over {"c", "b", "l"} (comment, blank, line-continuation line) above a statement
+          TailPatterns, \* the same after the last statement (no "l": a continuation needs a next line)
+          EatOpts,      \* set of <<above, below>> counts of empty lines that go with the removed region
+          JoinOpts,     \* {FALSE} or BOOLEAN: may a statement share the line of the previous one (`a; b`)
           LeadModes, TrailModes
 
 (* constant values for the .cfg files (sequences cannot be written there)     *)
-PatQuick    == {<<>>, <<"c">>, <<"b", "c">>, <<"c", "b", "c">>}
-PatThorough == PatQuick \cup {<<"c", "b">>}
-TailQuick   == {<<>>, <<"c">>}
+PatQuick    == {<<>>, <<"c">>, <<"c", "b", "c">>, <<"l">>}
+PatThorough == PatQuick \cup {<<"b", "c">>}
+PatGen      == PatThorough \cup {<<"l", "c">>, <<"b", "b", "c">>}
+TailQuick   == {<<>>, <<"b", "c">>}
+TailOne     == {<<"b", "c">>}
 TailThorough == {<<>>, <<"c">>, <<"b", "c">>}
+TailGen     == TailThorough \cup {<<"b", "b", "c">>}
 LeadAll  == {"none", "block", "all"}
 TrailAll == {"none", "line", "block", "all"}
 (* line-number forms of the option, written relative to the statement's line:  *)
@@ -40,42 +48,70 @@ UpK(m)   == IF m = "up1" THEN 1 ELSE IF m = "up2" THEN 2 ELSE 0
 DownK(m) == IF m = "down1" THEN 1 ELSE 0
 IsUp(m)   == m \in {"up1", "up2"}
 IsDown(m) == m \in {"down0", "down1"}
+(* space counts of the option ('+N' / '-N' after the word): how many empty    *)
+(* lines next to the selected trivia go as well; the sign only matters for    *)
+(* what a *copy* holds                                                         *)
+Spaces == {[n |-> 0, sg |-> ""]} \cup {[n |-> k, sg |-> g] : k \in 1..3, g \in {"+", "-"}}
+SpacePairs == {[lead |-> a, trail |-> b] : a \in Spaces, b \in Spaces}
+(* <<above, below>> numbers of empty lines eaten, for the model                 *)
+EatQuick    == {<<0, 0>>, <<1, 2>>}
+EatThorough == {<<0, 0>>, <<2, 3>>}
 
 (* ---- ids ----------------------------------------------------------------- *)
 NewId == 9
-NL == 2001  NEWLINE == 2002  ENDMARKER == 2003
+NL == 2001  NEWLINE == 2002  ENDMARKER == 2003  SEMI == 2004
 CmtTok(j) == 1000 + j
-TokIds == (1..9) \cup (1001..1999) \cup {NL, NEWLINE, ENDMARKER}
+TokIds == (1..9) \cup (1001..1999) \cup {NL, NEWLINE, ENDMARKER, SEMI}
 MKTab == [id \in TokIds |-> IF id < 1000 THEN [t |-> "NAME", s |-> "n"]
                             ELSE IF id < 2000 THEN [t |-> "COMMENT", s |-> "#"]
                             ELSE IF id = NL THEN [t |-> "NL", s |-> ""]
                             ELSE IF id = NEWLINE THEN [t |-> "NEWLINE", s |-> ""]
+                            ELSE IF id = SEMI THEN [t |-> "OP", s |-> ";"]
                             ELSE [t |-> "ENDMARKER", s |-> ""]]
-(* line ids: 1 blank; 1000+j comment j; 2000 + 20*stmt + 2*tr + variant       *)
-BlankLine == 1
-LineIds == {1} \cup (1001..1999) \cup (2000..2999)
-MLTab == [id \in LineIds |-> [b |-> id = 1]]
+(* line ids: 1 blank; 2 continuation (`\` alone: empty space as well);          *)
+(* 1000+j comment j; 3000 + 4*(statement ids as decimal digits) + 2*tr + variant *)
+LineIds == {1, 2} \cup (1001..1999) \cup (3000..7003)
+MLTab == [id \in LineIds |-> [b |-> id <= 2, c |-> id = 2]]
+
+JoinAll == BOOLEAN
+JoinNone == {FALSE}
 
 TL == INSTANCE TokenLaws WITH KTab <- MKTab, LTab <- MLTab
 
-(* a line: [k |-> "stmt" | "cmt" | "blank", id, tr (comment id of the line    *)
+(* a line: [k |-> "stmt" | "cmt" | "blank" | "cont", ids (the statements of a  *)
+(* statement line, `;`-joined), id (comment id), tr (comment id of the line   *)
 (* comment or 0), v (layout variant of the same tokens: re-indented)]         *)
-StmtLine(i, tr, v) == [k |-> "stmt", id |-> i, tr |-> tr, v |-> v]
-CmtLine(j)         == [k |-> "cmt", id |-> j, tr |-> 0, v |-> 0]
-BlankL             == [k |-> "blank", id |-> 0, tr |-> 0, v |-> 0]
-LineId(x) == IF x.k = "blank" THEN 1 ELSE IF x.k = "cmt" THEN 1000 + x.id
-             ELSE 2000 + 20 * x.id + 2 * (IF x.tr # 0 THEN 1 ELSE 0) + x.v
-LineToks(x) == IF x.k = "blank" THEN <<NL>> ELSE IF x.k = "cmt" THEN <<CmtTok(x.id), NL>>
-               ELSE <<x.id>> \o (IF x.tr # 0 THEN <<CmtTok(x.tr)>> ELSE <<>>) \o <<NEWLINE>>
+StmtLine(ids, tr, v) == [k |-> "stmt", ids |-> ids, id |-> 0, tr |-> tr, v |-> v]
+CmtLine(j)           == [k |-> "cmt", ids |-> <<>>, id |-> j, tr |-> 0, v |-> 0]
+BlankL               == [k |-> "blank", ids |-> <<>>, id |-> 0, tr |-> 0, v |-> 0]
+ContL                == [k |-> "cont", ids |-> <<>>, id |-> 0, tr |-> 0, v |-> 0]
+RECURSIVE Digits(_)
+Digits(ids) == IF ids = <<>> THEN 0 ELSE 10 * Digits(SubSeq(ids, 1, Len(ids) - 1)) + ids[Len(ids)]
+LineId(x) == IF x.k = "blank" THEN 1 ELSE IF x.k = "cont" THEN 2 ELSE IF x.k = "cmt" THEN 1000 + x.id
+             ELSE 3000 + 4 * Digits(x.ids) + 2 * (IF x.tr # 0 THEN 1 ELSE 0) + x.v
+RECURSIVE Joined(_)
+Joined(ids) == IF Len(ids) <= 1 THEN ids ELSE <<ids[1], SEMI>> \o Joined(Tail(ids))
+LineToks(x) == IF x.k = "blank" THEN <<NL>> ELSE IF x.k = "cont" THEN <<>> ELSE IF x.k = "cmt" THEN <<CmtTok(x.id), NL>>
+               ELSE Joined(x.ids) \o (IF x.tr # 0 THEN <<CmtTok(x.tr)>> ELSE <<>>) \o <<NEWLINE>>
+InLine(x, i) == x.k = "stmt" /\ \E q \in DOMAIN x.ids : x.ids[q] = i
+Blankish(x)  == x.k \in {"blank", "cont"}
 
 (* ---- layouts --------------------------------------------------------------- *)
-PatLines(p, base) == [q \in DOMAIN p |-> IF p[q] = "c" THEN CmtLine(base + q) ELSE BlankL]
-RECURSIVE Build(_, _, _, _)
-Build(pats, trail, tail, i) ==
-  IF i > NStmt THEN PatLines(tail, 10 * (NStmt + 1))
-  ELSE PatLines(pats[i], 10 * i) \o <<StmtLine(i, IF trail[i] THEN 100 + i ELSE 0, 0)>> \o Build(pats, trail, tail, i + 1)
-Layouts == [pats : [1..NStmt -> Patterns], trail : [1..NStmt -> BOOLEAN], tail : TailPatterns]
-LinesOf(lay) == Build(lay.pats, lay.trail, lay.tail, 1)
+PatLines(p, base) == [q \in DOMAIN p |-> IF p[q] = "c" THEN CmtLine(base + q) ELSE IF p[q] = "l" THEN ContL ELSE BlankL]
+(* statements i..j-1 share a line when join[i], .., join[j-2]                   *)
+RECURSIVE RunEnd(_, _)
+RunEnd(join, i) == IF i < NStmt /\ join[i] THEN RunEnd(join, i + 1) ELSE i
+RECURSIVE Build(_, _)
+Build(lay, i) ==
+  IF i > NStmt THEN PatLines(lay.tail, 10 * (NStmt + 1))
+  ELSE LET j == RunEnd(lay.join, i)
+       IN PatLines(lay.pats[i], 10 * i)
+          \o <<StmtLine([q \in 1..(j - i + 1) |-> i + q - 1], IF lay.trail[j] THEN 100 + j ELSE 0, 0)>>
+          \o Build(lay, j + 1)
+Layouts == {l \in [pats : [1..NStmt -> Patterns], trail : [1..NStmt -> BOOLEAN], tail : TailPatterns,
+                   join : [1..(NStmt - 1) -> JoinOpts]] :
+              \A i \in 1..(NStmt - 1) : l.join[i] => (l.pats[i + 1] = <<>> /\ ~l.trail[i])}
+LinesOf(lay) == Build(lay, 1)
 
 (* ---- tokenizer of the line model ------------------------------------------- *)
 RECURSIVE Flat(_, _)
@@ -89,9 +125,11 @@ Stream(lines) == LET f == Flat(lines, 1) IN
    ln |-> [q \in DOMAIN lines |-> LineId(lines[q])]]
 
 StmtPos(lines) == {p \in DOMAIN lines : lines[p].k = "stmt"}
-PosOfStmt(lines, i) == CHOOSE p \in DOMAIN lines : lines[p].k = "stmt" /\ lines[p].id = i
+PosOfStmt(lines, i) == CHOOSE p \in DOMAIN lines : InLine(lines[p], i)
 PrevStmtPos(lines, p) == LET S == {q \in StmtPos(lines) : q < p} IN IF S = {} THEN 0 ELSE CHOOSE q \in S : \A z \in S : z <= q
 NextStmtPos(lines, p) == LET S == {q \in StmtPos(lines) : q > p} IN IF S = {} THEN Len(lines) + 1 ELSE CHOOSE q \in S : \A z \in S : z >= q
+IsFirstOnLine(lines, i) == lines[PosOfStmt(lines, i)].ids[1] = i
+IsLastOnLine(lines, i)  == LET x == lines[PosOfStmt(lines, i)] IN x.ids[Len(x.ids)] = i
 
 (* ---- the reference editor (lines) ------------------------------------------ *)
 IsCmt(lines, p) == p \in DOMAIN lines /\ lines[p].k = "cmt"
@@ -110,30 +148,62 @@ TrailEnd(lines, p, tm) ==
                           IN IF b < q THEN b ELSE q
   ELSE p
 Seg(s, a, b) == IF a > b THEN <<>> ELSE SubSeq(s, a, b)
+Minus(ids, i) == SelectSeq(ids, LAMBDA z : z # i)
+Subst(ids, i, j) == [q \in DOMAIN ids |-> IF ids[q] = i THEN j ELSE ids[q]]
 
-(* eat: also remove one blank line directly above the removed region; add: a   *)
-(* blank line after the new statement                                          *)
-RefRemove(lines, i, lm, tm, new, eat, add) ==
+(* up to n empty lines (blank, or - above only - a lone line continuation)     *)
+(* directly above line a / directly below line b                               *)
+RECURSIVE EatUp(_, _, _)
+EatUp(lines, a, n) == IF n > 0 /\ a > 1 /\ Blankish(lines[a - 1]) THEN EatUp(lines, a - 1, n - 1) ELSE a
+RECURSIVE EatDown(_, _, _)
+EatDown(lines, b, n) == IF n > 0 /\ b < Len(lines) /\ lines[b + 1].k = "blank" THEN EatDown(lines, b + 1, n - 1) ELSE b
+
+(* remove (new = <<>>) or replace (new = <<NewId>>) statement i                *)
+(* eatL / eatT: how many empty lines next to the removed region go as well;    *)
+(* add: an empty line after the new statement                                  *)
+RefRemove(lines, i, lm, tm, new, eatL, eatT, add) ==
   LET p == PosOfStmt(lines, i)
-      a0 == LeadStart(lines, p, lm)
-      a == IF eat /\ a0 > 1 /\ lines[a0 - 1].k = "blank" THEN a0 - 1 ELSE a0
-      b == TrailEnd(lines, p, tm)
-      kept == IF tm = "none" /\ lines[p].tr # 0 THEN <<CmtLine(lines[p].tr)>> ELSE <<>>
-  IN Seg(lines, 1, a - 1) \o new \o kept \o (IF add THEN <<BlankL>> ELSE <<>>) \o Seg(lines, b + 1, Len(lines))
-RefInsert(lines, i, add) ==    \* i in 1..NStmt+1 : before statement i / at the end of the statement list
-  LET at == IF i = 1 THEN 0 ELSE PosOfStmt(lines, i - 1)
-  IN Seg(lines, 1, at) \o <<StmtLine(NewId, 0, 0)>> \o (IF add THEN <<BlankL>> ELSE <<>>) \o Seg(lines, at + 1, Len(lines))
+      x == lines[p]
+      first == x.ids[1] = i
+      last  == x.ids[Len(x.ids)] = i
+      whole == Len(x.ids) = 1
+      a0 == IF first THEN LeadStart(lines, p, lm) ELSE p                  \* leading trivia: first statement of its line only
+      b0 == IF last THEN TrailEnd(lines, p, tm) ELSE p                    \* trailing trivia: last statement of its line only
+      a1 == IF first THEN EatUp(lines, a0, eatL) ELSE a0
+      \* a lone line continuation directly above a line that goes away would continue into the next line
+      a == IF whole /\ new = <<>> /\ a1 > 1 /\ lines[a1 - 1].k = "cont" THEN a1 - 1 ELSE a1
+      b == IF last THEN EatDown(lines, b0, eatT) ELSE b0
+      keepTr == x.tr # 0 /\ (~last \/ tm = "none")                          \* the line comment belongs to the last statement
+      ids == IF new = <<>> THEN Minus(x.ids, i) ELSE Subst(x.ids, i, NewId)
+      here == IF ids # <<>> THEN <<StmtLine(ids, IF keepTr THEN x.tr ELSE 0, 0)>>
+              ELSE IF keepTr THEN <<CmtLine(x.tr)>> ELSE <<>>               \* an unselected line comment stays, on a line of its own
+  IN Seg(lines, 1, a - 1) \o here \o (IF add /\ last THEN <<BlankL>> ELSE <<>>) \o Seg(lines, b + 1, Len(lines))
+
+(* insert a new statement before statement i (i = NStmt + 1: at the end): on a *)
+(* line of its own right after the previous statement; a `;`-joined line it    *)
+(* falls into is broken there                                                  *)
+RefInsert(lines, i, add) ==
+  LET nw == <<StmtLine(<<NewId>>, 0, 0)>> \o (IF add THEN <<BlankL>> ELSE <<>>) IN
+  IF i = 1 THEN nw \o lines
+  ELSE LET p == PosOfStmt(lines, i - 1)
+           x == lines[p]
+           k == CHOOSE q \in DOMAIN x.ids : x.ids[q] = i - 1
+       IN IF k = Len(x.ids) THEN Seg(lines, 1, p) \o nw \o Seg(lines, p + 1, Len(lines))
+          ELSE Seg(lines, 1, p - 1) \o <<StmtLine(SubSeq(x.ids, 1, k), 0, 0)>> \o nw
+               \o <<StmtLine(SubSeq(x.ids, k + 1, Len(x.ids)), x.tr, 0)>> \o Seg(lines, p + 1, Len(lines))
 
 (* ---- facts for TokenLaws ---------------------------------------------------- *)
-TvPart(m) == [k |-> "str", b |-> FALSE, w |-> m, sg |-> "", hasn |-> FALSE, n |-> 0]
+TvPart(m, sp) == [k |-> "str", b |-> FALSE, w |-> m, sg |-> sp.sg, hasn |-> sp.n # 0, n |-> sp.n]
 IntPart(n) == [k |-> "int", b |-> FALSE, w |-> "", sg |-> "", hasn |-> TRUE, n |-> n]
+NoSpace == [n |-> 0, sg |-> ""]
 (* the option value for statement i: line numbers are 0-based                  *)
-TvOf(lines, i, lm, tm) ==
+TvOf(lines, i, lm, tm, sp) ==
   LET p0 == IF IsUp(lm) \/ IsDown(tm) THEN PosOfStmt(lines, i) - 1 ELSE 0
-  IN [n |-> 2, a |-> <<IF IsUp(lm) THEN IntPart(p0 - UpK(lm)) ELSE TvPart(lm),
-                       IF IsDown(tm) THEN IntPart(p0 + DownK(tm)) ELSE TvPart(tm)>>]
+  IN [n |-> 2, a |-> <<IF IsUp(lm) THEN IntPart(p0 - UpK(lm)) ELSE TvPart(lm, sp.lead),
+                       IF IsDown(tm) THEN IntPart(p0 + DownK(tm)) ELSE TvPart(tm, sp.trail)>>]
 NameIdx(st) == SelectSeq([q \in DOMAIN st.k |-> q], LAMBDA q : st.k[q] < 1000)
-ExtStmt(st, q) == IF st.k[q + 1] = NEWLINE THEN q + 1 ELSE q + 2    \* through the line comment and NEWLINE
+(* a statement through its line comment and NEWLINE; just itself when `;` follows *)
+ExtStmt(st, q) == IF st.k[q + 1] = NEWLINE THEN q + 1 ELSE IF st.k[q + 1] = SEMI THEN q ELSE q + 2
 CaseOf(pre, post, ns, nt, tv, deleting) ==
   LET a == Stream(pre)  b == Stream(post)
       n == Len(a.k)
@@ -146,6 +216,6 @@ CaseOf(pre, post, ns, nt, tv, deleting) ==
        valid |-> TRUE, ns |-> ns, nt |-> nt,
        own |-> {q \in 1..(n - 1) : a.k[q] >= 1000}, uown |-> {q \in 1..(Len(b.k) - 1) : b.k[q] >= 1000}, uoOk |-> TRUE,
        newc |-> <<>>, newk |-> <<NewId>>, stmt |-> TRUE, kind |-> "Module", field |-> "body", form |-> "slice", deleting |-> deleting,
-       tv |-> tv,
+       tv |-> tv, docstr |-> "True", ds1 |-> {}, ds2 |-> {},
        elifPre |-> FALSE, elifPost |-> FALSE, soleGen |-> FALSE, dependent |-> FALSE ]
 =============================================================================
